@@ -452,19 +452,32 @@ func (p *Parser) peek() byte {
 	return p.bs[p.bsp]
 }
 
-func (p *Parser) peekTwo() (byte, byte) {
-	// TODO: This should loop for slow readers, e.g. those providing one byte at
-	// a time. Use a loop and test it with [testing/iotest.OneByteReader].
-	if int(p.bsp+1) >= len(p.bs) {
-		p.fill()
+// peekAt returns the byte i positions after the next unread byte,
+// reading more input if necessary, even if the reader only provides
+// one byte at a time. It reports false if the input ends before that,
+// or if that many bytes do not fit in the read buffer.
+func (p *Parser) peekAt(i int) (byte, bool) {
+	for int(p.bsp)+i >= len(p.bs) {
+		if p.bsp == 0 && len(p.bs) == len(p.readBuf) {
+			return 0, false // the buffer is full
+		}
+		if p.fill() == 0 {
+			return 0, false
+		}
 	}
-	if int(p.bsp) >= len(p.bs) {
+	return p.bs[int(p.bsp)+i], true
+}
+
+func (p *Parser) peekTwo() (byte, byte) {
+	b1, ok := p.peekAt(0)
+	if !ok {
 		return utf8.RuneSelf, utf8.RuneSelf
 	}
-	if int(p.bsp+1) >= len(p.bs) {
-		return p.bs[p.bsp], utf8.RuneSelf
+	b2, ok := p.peekAt(1)
+	if !ok {
+		return b1, utf8.RuneSelf
 	}
-	return p.bs[p.bsp], p.bs[p.bsp+1]
+	return b1, b2
 }
 
 func (p *Parser) regToken(r rune) token {
@@ -1068,24 +1081,24 @@ loop:
 // zshNumRange peeks at the bytes after '<' to check for a zsh numeric
 // range glob pattern like <->, <5->, <-10>, or <5-10>.
 func (p *Parser) zshNumRange() bool {
-	// Peeking a handful of bytes here should be enough.
-	// TODO: This should loop for slow readers, e.g. those providing one byte at
-	// a time. Use a loop and test it with [testing/iotest.OneByteReader].
-	if int(p.bsp) >= len(p.bs) {
-		p.fill()
+	// Look ahead for "digits-digits>" without consuming any bytes.
+	i := 0
+	digits := func() {
+		for {
+			if b, ok := p.peekAt(i); !ok || b < '0' || b > '9' {
+				return
+			}
+			i++
+		}
 	}
-	rest := p.bs[p.bsp:]
-	for len(rest) > 0 && rest[0] >= '0' && rest[0] <= '9' {
-		rest = rest[1:]
-	}
-	if len(rest) == 0 || rest[0] != '-' {
+	digits()
+	if b, ok := p.peekAt(i); !ok || b != '-' {
 		return false
 	}
-	rest = rest[1:]
-	for len(rest) > 0 && rest[0] >= '0' && rest[0] <= '9' {
-		rest = rest[1:]
-	}
-	return len(rest) > 0 && rest[0] == '>'
+	i++
+	digits()
+	b, ok := p.peekAt(i)
+	return ok && b == '>'
 }
 
 func (p *Parser) advanceLitNone(r rune) {
